@@ -842,7 +842,11 @@ def parse_tree_to_objgraph(
         # The fully qualified name is used: the short name of a class of a
         # grammar that is imported transitively is not visible from the main
         # grammar's namespace.
-        cls_name = getattr(model_obj, "_tx_fqn", model_obj.__class__.__name__)
+        cls_name = getattr(model_obj, "_tx_fqn", None)
+        if cls_name is None or cls_name not in metamodel:
+            # e.g. a user class shared with another meta-model carries the
+            # qualified name given by that meta-model
+            cls_name = model_obj.__class__.__name__
         if cls_name in metamodel:
             current_metaclass_of_obj = metamodel[cls_name]
             assert current_metaclass_of_obj is not None
